@@ -1233,15 +1233,25 @@ def C19(ck):
     T = thorough(ck)
     rnd = random.Random(ck.seed * 23 + 7)
     # (a) KzCli: one file task with a crash in every state, every option combination
+    from concurrent.futures import ThreadPoolExecutor
+    clijobs = []
     for order, expect_ok in (('asis', True), ('unlinkfirst', False)):
-        bad = 0
         for rm, force, oe, sf in itertools.product(('TRUE', 'FALSE'), repeat=4):
             if sf == 'TRUE' and oe == 'FALSE':
                 continue
             for chunks in ((1, 3) if T else (2,)):
                 c = ('CONSTANTS\n Rm = %s\n Force = %s\n OutExists = %s\n SameFile = %s\n Chunks = %d\n Order = "%s"\nSPECIFICATION Spec\n'
                      'INVARIANTS CrashSafe NoClobber NeverWritesInput InputIntact ExitOK\n') % (rm, force, oe, sf, chunks, order)
-                res = kzv.tlc('KzCli', c, workers=1, timeout=300)
+                clijobs.append((order, rm, force, oe, sf, chunks, c))
+    with ThreadPoolExecutor(max_workers=max(2, kzv.NCPU - 2)) as ex:
+        clires = dict(zip([j[:6] for j in clijobs], ex.map(lambda j: kzv.tlc('KzCli', j[6], workers=1, timeout=600), clijobs)))
+    for order, expect_ok in (('asis', True), ('unlinkfirst', False)):
+        bad = 0
+        for rm, force, oe, sf in itertools.product(('TRUE', 'FALSE'), repeat=4):
+            if sf == 'TRUE' and oe == 'FALSE':
+                continue
+            for chunks in ((1, 3) if T else (2,)):
+                res = clires[(order, rm, force, oe, sf, chunks)]
                 if expect_ok:
                     ck.add_tlc(res, 'KzCli rm=%s force=%s outExists=%s sameFile=%s' % (rm, force, oe, sf))
                     if not res.ok:
@@ -1266,6 +1276,22 @@ def C19(ck):
             ck.cov['worker_pool_asis'] = {'violated': res.violated, 'note': 'send on closed results channel after an early exit (F18, outside the listed properties)'}
             if not res.violated:
                 raise kzv.ToolFailure('vacuity self-test: the as-found worker pool never sends on a closed channel')
+    # output names in directory -> directory mode: KzPaths (every spelling of the input directory up to 7 (8) characters over
+    # {t, s, ., /} that denotes t/s; the as-found slicing by string length violates NameOK: F21)
+    mcp = ('---- MODULE MC_P ----\nEXTENDS KzPaths\nMCAlpha == {"t", "s", ".", "/"}\nMCDir == <<"t", "/", "s">>\n'
+           'MCRels == {<<"f">>, <<"u", "/", "g">>, <<"a", "b">>, <<"c", "b">>}\n====\n')
+    for impl in ('fixed', 'asis'):
+        c = ('CONSTANTS\n Alphabet <- MCAlpha\n MaxLen = %d\n Dir <- MCDir\n Rels <- MCRels\n Impl = "%s"\nSPECIFICATION Spec\n'
+             'INVARIANTS NameOK Injective\nCHECK_DEADLOCK FALSE\n') % (8 if T else 7, impl)
+        res = kzv.tlc('MC_P', c, workers=6, timeout=1800, extra_files={'MC_P.tla': mcp}, heap='3g')
+        if impl == 'fixed':
+            ck.add_tlc(res, 'KzPaths (spellings of the input directory)')
+            if not res.ok:
+                raise kzv.ToolFailure('KzPaths fails its own check: ' + res.out[-1500:])
+        else:
+            ck.cov.setdefault('selftests', []).append({'cfg': 'KzPaths asis (F21)', 'violated': res.violated})
+            if not res.violated:
+                raise kzv.ToolFailure('vacuity self-test: the as-found output naming passes NameOK')
     # (b) the real tool
     root = os.path.join(kzv.BUILD, 'c19_%d' % os.getpid())
     cli = kzcli.Cli(ck, root)
